@@ -18,4 +18,4 @@ Definition reg : registry := [
   ("decrypt", run2 decrypt);
   ("encrypt", run2 encrypt)
 ].
-Definition entry := dispatch reg.
+Definition fv_entry := dispatch reg.
